@@ -222,6 +222,43 @@ def workload(tier: str) -> List[Tuple]:
     return tasks
 
 
+def build_asan_bitstruct(dest: str) -> Optional[str]:
+    """Compile the C sources shipped inside the bitstruct wheel with ASan+UBSan into `dest`
+    (a package directory shadowing the installed one).  Returns None on success, else why not."""
+    import glob
+    import shutil
+    import sysconfig
+    try:
+        import bitstruct as bs
+    except Exception as e:
+        return f"bitstruct not importable: {e}"
+    src = os.path.dirname(bs.__file__)
+    cfiles = [os.path.join(src, n) for n in ("c.c", "bitstream.c")]
+    if not all(os.path.exists(f) for f in cfiles):
+        return "the installed bitstruct does not ship its C sources"
+    cc = shutil.which("clang-14") or shutil.which("clang")
+    if cc is None:
+        return "clang not found"
+    pkg = os.path.join(dest, "bitstruct")
+    os.makedirs(pkg, exist_ok=True)
+    for f in glob.glob(os.path.join(src, "*.py")) + glob.glob(os.path.join(src, "*.h")):
+        shutil.copy(f, pkg)
+    so = os.path.join(pkg, "c" + (sysconfig.get_config_var("EXT_SUFFIX") or ".so"))
+    cmd = [cc, "-shared", "-fPIC", "-O1", "-g", "-fsanitize=address,undefined",
+           "-fno-sanitize-recover=all", "-I" + sysconfig.get_paths()["include"], "-I" + src,
+           *cfiles, "-o", so]
+    r = subprocess.run(cmd, capture_output=True, text=True)
+    if r.returncode != 0:
+        return "compilation failed: " + r.stderr[-300:]
+    return None
+
+
+def asan_runtime() -> Optional[str]:
+    import glob
+    c = glob.glob("/usr/lib/llvm-14/lib/clang/*/lib/linux/libclang_rt.asan-x86_64.so")
+    return c[0] if c else None
+
+
 def child_main(backend: str, tier: str, out_path: str) -> None:
     """Runs the whole workload in this process tree with the chosen bit-packing backend."""
     if backend == "py":
@@ -235,6 +272,7 @@ def child_main(backend: str, tier: str, out_path: str) -> None:
         tasks = workload(tier)
         common.pmap(run_layer, tasks, col, jobs=max(2, common.NCPU // 2))
     col.notes["backend_bound"] = bound
+    col.notes["backend_file"] = getattr(es.bitstruct, "__file__", "?")
     with open(out_path, "wb") as f:
         pickle.dump(col, f)
 
@@ -243,12 +281,30 @@ def run(tier: str, col: common.Collector) -> None:
     tmp = tempfile.mkdtemp(prefix="c02-")
     try:
         procs = []
-        for backend in ("c", "py"):
+        backends = ["c", "py"]
+        asan_env: Dict[str, str] = {}
+        if tier == "thorough" or os.environ.get("VERIF_C02_ASAN"):
+            why = build_asan_bitstruct(os.path.join(tmp, "asanpkg"))
+            rt = asan_runtime()
+            if why is None and rt is not None:
+                backends.append("asan")
+                asan_env = {"LD_PRELOAD": rt, "PYTHONMALLOC": "malloc",
+                            "ASAN_OPTIONS": "detect_leaks=0:halt_on_error=1:abort_on_error=1:"
+                            "log_path=" + os.path.join(tmp, "asan.log"),
+                            "UBSAN_OPTIONS": "print_stacktrace=1:halt_on_error=1:log_path=" +
+                            os.path.join(tmp, "ubsan.log"),
+                            "PYTHONPATH": os.path.join(tmp, "asanpkg"), "VERIF_JOBS": "8"}
+            else:
+                col.notes["asan_leg"] = "not run: " + str(why or "ASan runtime not found")
+        for backend in backends:
             out = os.path.join(tmp, backend + ".pkl")
             env = dict(os.environ, VERIF_TIER=tier)
+            if backend == "asan":
+                env.update(asan_env)
             p = subprocess.Popen([sys.executable, "-c",
                                   "import sys; sys.path.insert(0, %r); from vf.checks import c02; "
-                                  "c02.child_main(%r, %r, %r)" % (common.ROOT, backend, tier, out)],
+                                  "c02.child_main(%r, %r, %r)" % (common.ROOT, "c" if backend == "asan"
+                                                                  else backend, tier, out)],
                                  env=env, cwd=common.ROOT)
             procs.append((backend, p, out))
         cols: Dict[str, common.Collector] = {}
@@ -259,12 +315,26 @@ def run(tier: str, col: common.Collector) -> None:
                 p.kill()
                 col.fail_inconclusive(f"watchdog: backend child {backend} timed out")
                 continue
+            if backend == "asan":
+                import glob as _g
+                reports = []
+                for lf in _g.glob(os.path.join(tmp, "asan.log*")) + _g.glob(os.path.join(tmp, "ubsan.log*")):
+                    txt = open(lf, errors="replace").read()
+                    if "ERROR: AddressSanitizer" in txt or "runtime error:" in txt:
+                        reports.append(txt[:3000])
+                col.notes["sanitizer_report_blocks"] = len(reports)
+                if reports:
+                    kind = "AddressSanitizer" if "AddressSanitizer" in reports[0] else "UBSan"
+                    col.violation(("sanitizer-report", kind, "bitstruct.c"),
+                                  {"report": reports[0], "problem": "the instrumented accelerator "
+                                   "reported an error on a format/length odxtools handed to it"})
+                    continue
             if rc != 0 or not os.path.exists(out):
                 col.fail_inconclusive(f"backend child {backend} exited with {rc}")
                 continue
             with open(out, "rb") as f:
                 cols[backend] = pickle.load(f)
-        if len(cols) == 2:
+        if "c" in cols and "py" in cols:
             bc, bp = cols["c"].notes.get("backend_bound"), cols["py"].notes.get("backend_bound")
             col.notes["backends"] = {"c": bc, "py": bp}
             if bc == bp:
@@ -282,6 +352,19 @@ def run(tier: str, col: common.Collector) -> None:
             if only:
                 col.fail_inconclusive(f"{len(only)} cases ran with only one backend")
             col.ev(len(set(dc) & set(dp)))
+        if "asan" in cols and "c" in cols:
+            da = cols["asan"].notes.pop("digests", {})
+            bf = cols["asan"].notes.get("backend_file", "")
+            col.notes["asan_leg"] = {"backend_file": bf, "cases": len(da)}
+            if "asanpkg" not in bf:
+                col.fail_inconclusive("the ASan child did not bind the instrumented accelerator: " + bf)
+            dcc = dc if len(cols) >= 2 else {}
+            bad = [k for k in da if k in dcc and da[k] != dcc[k]]
+            for k in bad[:20]:
+                col.violation(("asan-build-differs", k.split("/")[0].rstrip("0123456789")),
+                              {"case": k, "asan": da[k], "plain": dcc[k]})
+            col.ev(len(da))
+            cols.pop("asan")
         for backend, c in cols.items():
             c.notes.pop("digests", None)
             c.notes.pop("backend_bound", None)
